@@ -101,14 +101,10 @@ func propC14(a *Analysis, r *Registry) {
 				return
 			}
 			// the bin index used by Add: the value compared with 0
-			var binCall *ssa.Call
-			for _, c := range fc.CallsTo(a.W.FuncName(b.methodOf(t, "bin"))) {
-				binCall = c
-			}
-			if binCall == nil {
-				anchorFail("Add does not call the bin helper")
-			}
-			env.Set("bin", fc.Val(binCall), types.Typ[types.Int])
+			// the bin index: the bin helper's value at Add's own receiver and argument, whether Add
+			// calls the helper or computes the same expression itself
+			binV := X.CallFn(b.methodOf(t, "bin"), []*RF{X.ParamRF(add, 0), X.ParamRF(add, 1)})
+			env.Set("bin", binV, types.Typ[types.Int])
 			want := map[string]string{
 				"&fld:" + under: "bin<0",
 				"&fld:" + over:  "!(bin<0) && len(h." + bins + ")<=bin",
@@ -127,7 +123,7 @@ func propC14(a *Analysis, r *Registry) {
 				case *ssa.IndexAddr:
 					key = "&idx"
 					e2 := X.EnvFor(add, "h", "x")
-					e2.Set("bin", fc.Val(binCall), types.Typ[types.Int])
+					e2.Set("bin", binV, types.Typ[types.Int])
 					b.Eq("C-guard counters", addName+"/bins-slot", a.W.InstrPos(st), fc.Val(ad), e2, "addr(h."+bins+", bin)")
 				}
 				sp, ok := want[key]
@@ -322,6 +318,10 @@ func propC14(a *Analysis, r *Registry) {
 			e2.Set("goal", goal, nil)
 			e2.Set("count", count, nil)
 			b.Eq("B-C14 formula", name+"/goal-step", a.W.InstrPos(call), gnext, e2, "goal-count")
+			// the walk visits the bins from the first one, one at a time
+			bi, bn := fc.Recurrence(binIdx)
+			b.EqRF("B-C14 formula", name+"/walk-first-bin", a.W.InstrPos(call), bi, X.S.Int(0), "the walk starts in bin 0")
+			b.EqRF("B-C14 formula", name+"/walk-next-bin", a.W.InstrPos(call), bn, binIdx.Add(X.S.Int(1)), "the walk moves to the next bin")
 			// the rank carried into the walk over the bins must be the rank among the BINNED samples:
 			// uint(total*q) minus the under count (the under-flow samples are the smallest ones, and the
 			// bins' counts are accumulated from the first bin). Without the subtraction the walk lands in a
@@ -351,6 +351,7 @@ func propC14(a *Analysis, r *Registry) {
 				e2.Set("c", X.S.atomRF(ti[0].ID), nil)
 				b.Eq("B-C14 formula", name+"/total-step", b.pos(fn), tnext, e2, "total+c")
 				b.Eq("B-C14 formula", name+"/total-source", b.pos(fn), ti[0].Args[0], e2, "hist.Counts()#1")
+				b.FullScan("B-C14 formula", name+"/total-coverage", b.pos(fn), fc, ti[0].Args[1], X.S.MakeFn("len", ti[0].Args[0]))
 			} else {
 				r.Fail("B-C14 formula", name+"/total-step", b.pos(fn), "total is not accumulated over the bin counts")
 			}
